@@ -66,6 +66,13 @@ pub struct Mutual1 { next: Option<Box<Mutual2>>, tag: u8 }
 #[derive(CandidType, Deserialize, Debug, PartialEq, Clone)]
 pub struct Mutual2 { back: Vec<Mutual1>, n: Nat }
 
+// raw identifiers: the derive macro has to use the unescaped name everywhere (label, id, sort key)
+#[derive(CandidType, Deserialize, Debug, PartialEq, Clone)]
+pub struct RawIds { r#type: u8, r#fn: Nat, r#in: String, r#match: bool, a: Int, r#ref: Option<u8>, zz: Vec<u16> }
+#[derive(CandidType, Deserialize, Debug, PartialEq, Clone)]
+#[allow(non_camel_case_types)]
+pub enum RawEnum { r#type, r#struct { r#ref: u8, r#loop: Nat, b: Int }, r#move(u8, Nat), Plain(Vec<RawIds>) }
+
 candid::define_function!(pub FnRef : (Nat, Option<Pair>) -> (String) query);
 candid::define_service!(pub SvRef : { "get" : candid::func!((Nat) -> (Int) query); "set" : candid::func!((Vec<u8>) -> ()) });
 
@@ -291,6 +298,7 @@ corpus! {
     "Pair" => Pair, "Renamed" => Renamed, "Tup" => Tup, "Newt" => Newt, "UnitS" => UnitS, "Shape" => Shape, "Color" => Color,
     "Gen<Nat,Int>" => Gen<Nat, Int>, "Gen<u8,Pair>" => Gen<u8, Pair>, "List" => List, "Tree" => Tree, "Rose" => Rose, "WithOpts" => WithOpts,
     "Wide" => Wide, "Floats" => Floats, "Refs" => Refs, "Maps" => Maps, "Nested" => Nested, "Big128" => Big128, "Bytes" => Bytes, "Res2" => Res2,
+    "RawIds" => RawIds, "RawEnum" => RawEnum, "Vec<RawEnum>" => Vec<RawEnum>,
     "Boxes" => Boxes, "Mutual1" => Mutual1, "Mutual2" => Mutual2, "Vec<Shape>" => Vec<Shape>, "Opt<List>" => Option<List>, "Vec<Tree>" => Vec<Tree>,
     "Opt<Box<List>>" => Option<Box<List>>, "Vec<Opt<Box<List>>>" => Vec<Option<Box<List>>>, "Gen<Opt<Box<List>>,Tree>" => Gen<Option<Box<List>>, Tree>,
     "Box<Tree>" => Box<Tree>, "Opt<Box<Mutual2>>" => Option<Box<Mutual2>>, "Vec<Rose>" => Vec<Rose>, "(Vec<Nat>,Int)" => (Vec<Nat>, Int),
